@@ -47,11 +47,17 @@ var vhAuthors = []*vhAuthor{{id: vhHexId(0xa1)}, {id: vhHexId(0xa2)}}
 
 type vhOp struct {
 	OpBase
-	N int
+	N   int
+	Bad bool // an operation whose own validation fails (hostile content)
 }
 
-func (o *vhOp) Id() entity.Id      { return o.id }
-func (o *vhOp) Validate() error    { return nil }
+func (o *vhOp) Id() entity.Id { return o.id }
+func (o *vhOp) Validate() error {
+	if o.Bad {
+		return fmt.Errorf("vh: invalid operation")
+	}
+	return nil
+}
 func (o *vhOp) Time() time.Time    { return time.Unix(1, 0) }
 
 func vhNewOp(n int, author identity.Interface) *vhOp {
